@@ -1,15 +1,19 @@
 (* DirSlotsProofs.v: the directory slot layer (Model/DirSlots.v) against the INDEPENDENT decoder Spec/Abs.v.
    1. codec facts; the run written for an entry is accepted by Abs.run_valid and decodes to the name (written_run_valid)
-   2. find_free_entries (find_free_entries_spec)
+   2. find_free_entries (find_free_entries_spec: the free spot, and the capacity refusal of a fixed root - 13fd5fe)
    3. write_run / write_entry refine "insert one entry" and keep the slot clauses of C03 (write_entry_refines)
    4. mark_deleted refines "remove one entry" (mark_deleted_refines)
-   5. failed calls (failed_write_unchanged_partial, failed_write_unchanged, ..._refuted)
+   5. failed calls: every outcome of write_entry (write_entry_cases); a fixed root is never changed by a failing call and
+      never reports WriteZero (write_entry_fixed_root_total, write_entry_fixed_root_full_unchanged); any failing call keeps
+      the decoded entries and the slots in use (failed_write_keeps_entries); the remaining known class, a chain that cannot
+      grow (failed_write_unchanged, failed_write_unchanged_chain_refuted)
    6. uniqueness of names in situ (create_entry_refines)
-   7. C03 corollaries (slots_wf), rename at the slot level, the finite-map view (dir_map)
+   7. C03 corollaries (slots_wf), rename at the slot level in the code's order WRITE, then DELETE - d9f4de8 -
+      (rename_slots_refines), the finite-map view (dir_map)
    8. example directories
    9. the library's own lookup against the decoder (remove_entry_refines, has_exact_name_spec, rename_rewrite_refines,
       rename_in_dir_refines - fresh name / own name in the stored spelling / own name in another spelling -,
-      ..._insane_refuted) *)
+      rename_failed_source_kept, rename_across_failed_source_unchanged, ..._insane_refuted) *)
 From Coq Require Import NArith ZArith Lia List Bool Arith.
 From FatVerif Require Import Model.Base Model.Str Model.Slot Model.Time Model.Name Model.ShortName Model.DirSlots
   Spec.Abs Proofs.NameProofs Proofs.ShortNameProofs.
@@ -388,26 +392,31 @@ Lemma find_free_go_spec num : forall cur pre mid ff nf i,
   Forall nonend pre -> Forall isdel mid -> len_N mid < num -> (mid <> [] -> ff = len_N pre) ->
   nf = len_N mid -> i = len_N pre + len_N mid ->
   len_N (pre ++ mid ++ cur) < 134217728 ->
-  exists p pre' mid' post', find_free_go cur num ff nf i = Ok p /\ free_spot (pre ++ mid ++ cur) num p pre' mid' post'.
+  exists ae p pre' mid' post', find_free_go cur num ff nf i = Ok (ae, p) /\ free_spot (pre ++ mid ++ cur) num p pre' mid' post' /\
+    ae = (len_N mid' <? num).
 Proof.
   induction cur as [|s r IH]; intros pre mid ff nf i Hpre Hmid Hlt Hff Hnf Hi Hbound.
   - cbn [find_free_go]. subst nf i. destruct mid as [|m0 mid'].
-    + exists (len_N pre + 0), pre, [], []. cbn [len_N length N.of_nat N.eqb]. split; [reflexivity|].
+    + exists true, (len_N pre + 0), pre, [], []. cbn [len_N length N.of_nat N.eqb]. split; [reflexivity|].
+      split; [|symmetry; apply N.ltb_lt; exact Hlt].
       constructor; [reflexivity|lia|assumption|constructor|].
       right. split; [exact Hlt|left; reflexivity].
-    + exists ff, pre, (m0 :: mid'), []. replace (len_N (m0 :: mid') =? 0) with false
+    + exists true, ff, pre, (m0 :: mid'), []. replace (len_N (m0 :: mid') =? 0) with false
         by (symmetry; apply N.eqb_neq; unfold len_N; cbn [length]; lia).
-      split; [reflexivity|]. constructor; [reflexivity|symmetry; apply Hff; discriminate|assumption|assumption|].
+      split; [reflexivity|]. split; [|symmetry; apply N.ltb_lt; exact Hlt].
+      constructor; [reflexivity|symmetry; apply Hff; discriminate|assumption|assumption|].
       right. split; [exact Hlt|left; reflexivity].
   - cbn [find_free_go]. rewrite is_end_decode, is_deleted_decode.
     destruct (byte_at s 0 =? 0) eqn:E0.
     + apply N.eqb_eq in E0. subst nf i. destruct mid as [|m0 mid'].
-      * exists (len_N pre + 0), pre, [], (s :: r). cbn [len_N length N.of_nat N.eqb]. split; [reflexivity|].
+      * exists true, (len_N pre + 0), pre, [], (s :: r). cbn [len_N length N.of_nat N.eqb]. split; [reflexivity|].
+        split; [|symmetry; apply N.ltb_lt; exact Hlt].
         constructor; [reflexivity|lia|assumption|constructor|].
         right. split; [exact Hlt|right; exists s, r; split; [reflexivity|exact E0]].
-      * exists ff, pre, (m0 :: mid'), (s :: r). replace (len_N (m0 :: mid') =? 0) with false
+      * exists true, ff, pre, (m0 :: mid'), (s :: r). replace (len_N (m0 :: mid') =? 0) with false
           by (symmetry; apply N.eqb_neq; unfold len_N; cbn [length]; lia).
-        split; [reflexivity|]. constructor; [reflexivity|symmetry; apply Hff; discriminate|assumption|assumption|].
+        split; [reflexivity|]. split; [|symmetry; apply N.ltb_lt; exact Hlt].
+        constructor; [reflexivity|symmetry; apply Hff; discriminate|assumption|assumption|].
         right. split; [exact Hlt|right; exists s, r; split; [reflexivity|exact E0]].
     + apply N.eqb_neq in E0.
       assert (len_N pre + len_N mid + 1 <= 134217728) as Hb.
@@ -423,8 +432,10 @@ Proof.
         assert (pre ++ mid ++ s :: r = pre ++ (mid ++ [s]) ++ r) as Eapp by (rewrite <- !app_assoc; reflexivity).
         assert (Forall isdel (mid ++ [s])) as Hmid' by (apply Forall_app; split; [assumption|constructor; [exact E5|constructor]]).
         destruct (nf + 1 =? num) eqn:En.
-        -- apply N.eqb_eq in En. exists (len_N pre), pre, (mid ++ [s]), r. split; [reflexivity|].
-           constructor; [exact Eapp|reflexivity|assumption|assumption|]. left. rewrite len_N_app. unfold len_N at 2. cbn [length]. lia.
+        -- apply N.eqb_eq in En. exists false, (len_N pre), pre, (mid ++ [s]), r. split; [reflexivity|].
+           assert (len_N (mid ++ [s]) = num) as Elen by (rewrite len_N_app; unfold len_N at 2; cbn [length]; lia).
+           split; [|symmetry; apply N.ltb_ge; lia].
+           constructor; [exact Eapp|reflexivity|assumption|assumption|]. left. exact Elen.
         -- apply N.eqb_neq in En.
            replace (i + 1 <=? 4294967295) with true by (symmetry; apply N.leb_le; lia). cbn [bind].
            rewrite Eapp. apply IH; try assumption.
@@ -446,20 +457,36 @@ Proof.
         -- rewrite <- Eapp. exact Hbound.
 Qed.
 
-(* (b) *)
-Theorem find_free_entries_spec ss num : 1 <= num -> len_N ss < 134217728 ->
-  exists p pre mid post, find_free_entries ss num = Ok p /\ free_spot ss num p pre mid post.
+(* (b) the run of [num] slots goes to the free spot [p]; the only refusal is that of a FIXED root (13fd5fe): the spot is
+   the end of the used part and the run would end behind the last slot of the region - NotEnoughSpace (nothing is written
+   by find_free_entries).  A reused run of deleted slots always fits; a chain-backed directory is never refused here. *)
+Theorem find_free_entries_spec k ss num : 1 <= num -> len_N ss < 134217728 ->
+  exists p pre mid post, free_spot ss num p pre mid post /\
+    find_free_entries k ss num = if is_fixed k && (len_N ss <? p + num) then Err ENotEnoughSpace else Ok p.
 Proof.
   intros Hn Hb.
   assert (len_N (@nil (list N)) < num) as H1 by (cbn [len_N length N.of_nat]; lia).
   assert ((@nil (list N)) <> [] -> 0 = len_N (@nil (list N))) as H2 by (intros C; congruence).
   destruct (find_free_go_spec num ss [] [] 0 0 0 (Forall_nil _) (Forall_nil _) H1 H2 eq_refl eq_refl Hb)
-    as [p [pre [mid [post [E S]]]]].
-  exists p, pre, mid, post. cbn [app] in S. split; [|exact S]. unfold find_free_entries. rewrite E. cbn [bind].
+    as [ae [p [pre [mid [post [E [S Eae]]]]]]].
+  exists p, pre, mid, post. cbn [app] in S. split; [exact S|]. unfold find_free_entries. rewrite E. cbn [bind].
   unfold u32_mul, DIR_ENTRY_SIZE, u32_max.
-  assert (p <= len_N ss) as Hp.
-  { destruct S as [S1 S2 _ _ _]. rewrite S1, <- S2, len_N_app. lia. }
-  replace (p * 32 <=? 4294967295) with true by (symmetry; apply N.leb_le; lia). reflexivity.
+  assert (p + len_N mid <= len_N ss) as Hp.
+  { destruct S as [S1 S2 _ _ _]. rewrite S1, <- S2, !len_N_app. lia. }
+  replace (p * 32 <=? 4294967295) with true by (symmetry; apply N.leb_le; lia). cbn [bind].
+  destruct (is_fixed k); cbn [andb]; [|rewrite andb_false_r; reflexivity]. rewrite andb_true_r. subst ae.
+  destruct (len_N mid <? num) eqn:EL.
+  - replace (len_N ss * 32 <? p * 32 + num * 32) with (len_N ss <? p + num); [reflexivity|].
+    destruct (len_N ss <? p + num) eqn:EC; symmetry; [apply N.ltb_lt in EC; apply N.ltb_lt|apply N.ltb_ge in EC; apply N.ltb_ge]; lia.
+  - apply N.ltb_ge in EL. destruct S as [_ _ _ _ [C|[C _]]]; [|lia].
+    replace (len_N ss <? p + num) with false by (symmetry; apply N.ltb_ge; lia). reflexivity.
+Qed.
+
+Corollary find_free_entries_chained cs ss num : 1 <= num -> len_N ss < 134217728 ->
+  exists p pre mid post, find_free_entries (Chained cs) ss num = Ok p /\ free_spot ss num p pre mid post.
+Proof.
+  intros Hn Hb. destruct (find_free_entries_spec (Chained cs) ss num Hn Hb) as [p [pre [mid [post [S E]]]]].
+  exists p, pre, mid, post. split; [exact E|exact S].
 Qed.
 
 (* ================================================================ 3. the independent decoder over a split directory *)
@@ -649,20 +676,35 @@ Proof.
       apply IH. destruct k; cbn [can_hold length] in *; lia.
 Qed.
 
-(* the fixed root is full: WriteZero after the slots that still fitted (D5) *)
-Lemma write_run_fixed_full : forall run free pre tail, (length tail < length run)%nat ->
-  write_run FixedRoot free (pre ++ tail) (length pre) run = (Err EWriteZero, pre ++ firstn (length tail) run).
+(* a failing write_run (the stream below refuses a write at its end: DiskSlice -> WriteZero, a chain that cannot grow ->
+   NotEnoughSpace): what was written is a proper prefix of the run, and it fills the directory exactly to its end *)
+Lemma write_run_err k : forall run free pre tail r ss',
+  write_run k free (pre ++ tail) (length pre) run = (r, ss') -> r <> Ok tt ->
+  exists j, (length tail <= j < length run)%nat /\ ss' = pre ++ firstn j run /\
+    r = Err (match k with FixedRoot => EWriteZero | Chained _ => ENotEnoughSpace end) /\
+    (k = FixedRoot -> j = length tail).
 Proof.
-  induction run as [|s r IH]; intros free pre tail H; [cbn [length] in H; lia|].
-  cbn [write_run]. destruct tail as [|t tail'].
-  - rewrite app_nil_r. replace (Nat.ltb (length pre) (length pre)) with false by (symmetry; apply Nat.ltb_ge; lia).
-    cbn [length firstn]. rewrite app_nil_r. reflexivity.
-  - replace (Nat.ltb (length pre) (length (pre ++ t :: tail'))) with true
-      by (symmetry; apply Nat.ltb_lt; rewrite app_length; cbn [length]; lia).
-    rewrite set_nth_mid.
-    replace (pre ++ s :: tail') with ((pre ++ [s]) ++ tail') by (rewrite <- app_assoc; reflexivity).
-    replace (S (length pre)) with (length (pre ++ [s])) by (rewrite app_length; cbn [length]; lia).
-    rewrite IH by (cbn [length] in H; lia). cbn [length firstn]. rewrite <- app_assoc. reflexivity.
+  induction run as [|s r0 IH]; intros free pre tail r ss' H Hr.
+  - cbn [write_run] in H. injection H as <- <-. congruence.
+  - cbn [write_run] in H. destruct tail as [|t tail'].
+    + rewrite app_nil_r in H. replace (Nat.ltb (length pre) (length pre)) with false in H by (symmetry; apply Nat.ltb_ge; lia).
+      destruct k as [|cs].
+      * injection H as <- <-. exists 0%nat. cbn [length firstn]. rewrite app_nil_r. repeat split; try lia; try discriminate.
+      * destruct free as [|free'].
+        -- injection H as <- <-. exists 0%nat. cbn [length firstn]. rewrite app_nil_r. repeat split; try lia; try discriminate.
+        -- replace (pre ++ s :: repeat_N zero_slot (cs - 1)) with ((pre ++ [s]) ++ repeat_N zero_slot (cs - 1)) in H
+             by (rewrite <- app_assoc; reflexivity).
+           replace (S (length pre)) with (length (pre ++ [s])) in H by (rewrite app_length; cbn [length]; lia).
+           destruct (IH _ _ _ _ _ H Hr) as [j [J1 [J2 [J3 _]]]]. exists (S j). cbn [length firstn].
+           split; [lia|]. split; [rewrite J2, <- app_assoc; reflexivity|]. split; [exact J3|discriminate].
+    + replace (Nat.ltb (length pre) (length (pre ++ t :: tail'))) with true in H
+        by (symmetry; apply Nat.ltb_lt; rewrite app_length; cbn [length]; lia).
+      rewrite set_nth_mid in H.
+      replace (pre ++ s :: tail') with ((pre ++ [s]) ++ tail') in H by (rewrite <- app_assoc; reflexivity).
+      replace (S (length pre)) with (length (pre ++ [s])) in H by (rewrite app_length; cbn [length]; lia).
+      destruct (IH _ _ _ _ _ H Hr) as [j [J1 [J2 [J3 J4]]]]. exists (S j). cbn [length firstn].
+      split; [lia|]. split; [rewrite J2, <- app_assoc; reflexivity|]. split; [exact J3|].
+      intros Hk. rewrite (J4 Hk). reflexivity.
 Qed.
 
 (* ================================================================ 3c. inserting one entry *)
@@ -758,8 +800,9 @@ Proof.
   assert (entry_run n e = lf ++ [sfn_encode e]) as Erun by reflexivity.
   destruct (entry_lfn_run_valid n (se_name e) V) as [R1 [R2 [R3 [_ R5]]]]. fold lf in R1, R2, R3, R5.
   assert (len_N (entry_run n e) = len_N lf + 1) as Elen by (rewrite Erun, len_N_app; reflexivity).
-  destruct (find_free_entries_spec ss (len_N (entry_run n e))) as [p0 [pre [mid [post [Ef S]]]]]; [lia|exact Hb|].
-  rewrite Ef in H. destruct S as [S1 S2 S3 S4 S5].
+  destruct (find_free_entries_spec k ss (len_N (entry_run n e))) as [p0 [pre [mid [post [S Ef]]]]]; [lia|exact Hb|].
+  rewrite Ef in H. destruct (is_fixed k && (len_N ss <? p0 + len_N (entry_run n e))); [discriminate|].
+  destruct S as [S1 S2 S3 S4 S5].
   assert (N.to_nat p0 = length pre) as Ep by (rewrite <- S2; unfold len_N; apply Nat2N.id).
   rewrite Ep in H.
   destruct (write_run k free ss (length pre) (entry_run n e)) as [r ss''] eqn:W.
@@ -970,12 +1013,6 @@ Qed.
 
 (* ================================================================ 5. failed calls *)
 
-(* the class of the recorded findings D5/D20: the directory cannot take the run at the place find_free_entries chose
-   (fixed root: it does not fit before the end of the region; chain: not enough free clusters) *)
-Definition write_known_class (k : dkind) (free : nat) (ss : slots) (n : str) (e : sfn_entry) : Prop :=
-  exists p, find_free_entries ss (len_N (entry_run n e)) = Ok p /\
-            ~ can_hold k free (length ss - N.to_nat p) (length (entry_run n e)).
-
 Lemma can_hold_dec k free a b : {can_hold k free a b} + {~ can_hold k free a b}.
 Proof. destruct k; cbn [can_hold]; apply le_dec. Qed.
 
@@ -985,32 +1022,179 @@ Proof.
   destruct (MAX_LONG_NAME_LEN <? utf8_len n); [right; eexists; reflexivity|].
   destruct (validate_chars_cases n) as [H|H]; rewrite H; [left; reflexivity|right; eexists; reflexivity].
 Qed.
+Lemma validate_err_kinds n x : validate_long_name n = Err x -> x = EInvalidFileNameLength \/ x = EUnsupportedFileNameCharacter.
+Proof.
+  unfold validate_long_name. destruct (utf8_len n =? 0); [intros H; injection H as <-; left; reflexivity|].
+  destruct (MAX_LONG_NAME_LEN <? utf8_len n); [intros H; injection H as <-; left; reflexivity|].
+  destruct (validate_chars_cases n) as [H|H]; rewrite H; [discriminate|]. intros H'. injection H' as <-. right. reflexivity.
+Qed.
 
 (* (e) the part that holds without exception: a rejected name changes nothing *)
 Theorem failed_write_unchanged_partial k free ss n e x :
   validate_long_name n = Err x -> write_entry k free ss n e = (Err x, ss).
 Proof. intros H. unfold write_entry, lift. rewrite H. reflexivity. Qed.
 
-(* (e) outside the known class every call either succeeds or is a rejected name that changed nothing
-   (in particular no Panic, no WriteZero, no NotEnoughSpace) *)
+Lemma entry_run_len n e : 1 <= len_N (entry_run n e) /\ (1 <= length (entry_run n e))%nat.
+Proof. unfold entry_run, len_N. rewrite app_length. cbn [length]. lia. Qed.
+
+(* (e) EVERY outcome of write_entry (no Panic, no OutOfFuel, no WriteZero):
+   1. success;
+   2. a rejected name: nothing changed;
+   3. a FIXED root without room for the run at the chosen spot: NotEnoughSpace and nothing changed (13fd5fe; before: the
+      slots that still fitted were written, then WriteZero - D5);
+   4. a CHAIN-backed directory that cannot grow (no free cluster): NotEnoughSpace after a proper prefix of the run - only
+      long-name slots - was written over the free slots at the end of the directory (finding "nospace during entry
+      write", unchanged). *)
+Theorem write_entry_cases k free ss n e : len_N ss < 134217728 ->
+  (exists range ss', write_entry k free ss n e = (Ok range, ss')) \/
+  (exists x, validate_long_name n = Err x /\ write_entry k free ss n e = (Err x, ss)) \/
+  (k = FixedRoot /\ validate_long_name n = Ok tt /\ write_entry k free ss n e = (Err ENotEnoughSpace, ss) /\
+   exists p pre mid post, free_spot ss (len_N (entry_run n e)) p pre mid post /\ len_N ss < p + len_N (entry_run n e)) \/
+  (exists cs p pre mid post j, k = Chained cs /\ validate_long_name n = Ok tt /\
+     free_spot ss (len_N (entry_run n e)) p pre mid post /\
+     (length (mid ++ post) <= j < length (entry_run n e))%nat /\
+     ~ can_hold k free (length ss - N.to_nat p) (length (entry_run n e)) /\
+     find_free_entries k ss (len_N (entry_run n e)) = Ok p /\
+     write_entry k free ss n e = (Err ENotEnoughSpace, pre ++ firstn j (entry_run n e))).
+Proof.
+  intros Hb. destruct (validate_ok_or_err n) as [V|[x V]].
+  2:{ right. left. exists x. split; [exact V|]. apply failed_write_unchanged_partial. exact V. }
+  destruct (entry_run_len n e) as [H1 H1'].
+  destruct (find_free_entries_spec k ss (len_N (entry_run n e)) H1 Hb) as [p [pre [mid [post [S Ef]]]]].
+  pose proof S as [S1 S2 _ _ _].
+  assert (N.to_nat p = length pre) as Ep by (rewrite <- S2; unfold len_N; apply Nat2N.id).
+  assert (length ss = (length pre + length (mid ++ post))%nat) as Lss by (rewrite S1, app_length; reflexivity).
+  unfold write_entry, lift. rewrite V, Ef.
+  destruct k as [|cs]; cbn [is_fixed andb].
+  - destruct (len_N ss <? p + len_N (entry_run n e)) eqn:EC.
+    + apply N.ltb_lt in EC. right. right. left. split; [reflexivity|]. split; [reflexivity|]. split; [reflexivity|].
+      exists p, pre, mid, post. split; [exact S|exact EC].
+    + apply N.ltb_ge in EC. left. rewrite Ep, S1.
+      destruct (write_run_total FixedRoot (entry_run n e) free pre (mid ++ post)) as [ss' W].
+      { cbn [can_hold]. unfold len_N in *. lia. }
+      rewrite W. cbn [bind]. eauto.
+  - rewrite Ep.
+    destruct (write_run (Chained cs) free ss (length pre) (entry_run n e)) as [r ss''] eqn:W.
+    assert (r = Ok tt \/ r <> Ok tt) as [->|Hr] by (destruct r as [[]| | |]; [left; reflexivity|right; discriminate..]).
+    { left. cbn [bind]. eauto. }
+    assert (~ can_hold (Chained cs) free (length ss - length pre) (length (entry_run n e))) as C.
+    { intros C. rewrite Lss in C. replace (length pre + length (mid ++ post) - length pre)%nat with (length (mid ++ post)) in C by lia.
+      destruct (write_run_total (Chained cs) (entry_run n e) free pre (mid ++ post) C) as [ss' W'].
+      rewrite <- S1, W in W'. injection W' as -> _. apply Hr. reflexivity. }
+    + rewrite S1 in W. destruct (write_run_err _ _ _ _ _ _ _ W Hr) as [j [J1 [J2 [J3 _]]]].
+      right. right. right. exists cs, p, pre, mid, post, j. subst r ss''. cbn [bind]. rewrite Ep.
+      repeat (split; [first [reflexivity|assumption]|]). reflexivity.
+Qed.
+
+(* (e) a fixed root: creating an entry either succeeds or changes NOTHING; the only errors are the two name errors and
+   NotEnoughSpace, the latter exactly when the run does not fit behind the free spot.  Never WriteZero, never a partial
+   run (D5/D20 fixed by 13fd5fe). *)
+Theorem write_entry_fixed_root_total free ss n e : len_N ss < 134217728 ->
+  (exists range ss', write_entry FixedRoot free ss n e = (Ok range, ss')) \/
+  (exists x, validate_long_name n = Err x /\ write_entry FixedRoot free ss n e = (Err x, ss)) \/
+  (validate_long_name n = Ok tt /\ write_entry FixedRoot free ss n e = (Err ENotEnoughSpace, ss) /\
+   exists p pre mid post, free_spot ss (len_N (entry_run n e)) p pre mid post /\ len_N ss < p + len_N (entry_run n e)).
+Proof.
+  intros Hb. destruct (write_entry_cases FixedRoot free ss n e Hb) as [H|[H|[[_ H]|H]]]; [left; exact H|right; left; exact H|right; right; exact H|].
+  destruct H as [cs [? [? [? [? [? [C _]]]]]]]. discriminate.
+Qed.
+
+Theorem write_entry_fixed_root_full_unchanged free ss n e r ss' : len_N ss < 134217728 ->
+  write_entry FixedRoot free ss n e = (r, ss') -> (forall range, r <> Ok range) ->
+  ss' = ss /\ exists x, r = Err x /\ x <> EWriteZero /\ (x = ENotEnoughSpace \/ validate_long_name n = Err x).
+Proof.
+  intros Hb H Hr. destruct (write_entry_fixed_root_total free ss n e Hb) as [[rg [s1 E]]|[[x [V E]]|[V [E _]]]]; rewrite E in H.
+  - injection H as <- _. exfalso. apply (Hr rg). reflexivity.
+  - injection H as <- <-. split; [reflexivity|]. exists x. split; [reflexivity|]. split; [|right; exact V].
+    destruct (validate_err_kinds n x V) as [->| ->]; discriminate.
+  - injection H as <- <-. split; [reflexivity|]. exists ENotEnoughSpace. split; [reflexivity|]. split; [discriminate|left; reflexivity].
+Qed.
+
+(* the class of the remaining recorded finding ("nospace during entry write"): a CHAIN-backed directory that would have to
+   grow for the run, and not enough free clusters *)
+Definition write_known_class (k : dkind) (free : nat) (ss : slots) (n : str) (e : sfn_entry) : Prop :=
+  exists cs p, k = Chained cs /\ find_free_entries k ss (len_N (entry_run n e)) = Ok p /\
+               ~ can_hold k free (length ss - N.to_nat p) (length (entry_run n e)).
+
+(* (e) outside the known class a call that does not succeed has changed nothing: it is a rejected name, or NotEnoughSpace
+   of a fixed root (no Panic, no WriteZero) *)
 Theorem failed_write_unchanged k free ss n e :
   len_N ss < 134217728 -> ~ write_known_class k free ss n e ->
   (exists range ss', write_entry k free ss n e = (Ok range, ss')) \/
-  (exists x, validate_long_name n = Err x /\ write_entry k free ss n e = (Err x, ss)).
+  (exists x, validate_long_name n = Err x /\ write_entry k free ss n e = (Err x, ss)) \/
+  (k = FixedRoot /\ write_entry k free ss n e = (Err ENotEnoughSpace, ss)).
 Proof.
-  intros Hb Hk. destruct (validate_ok_or_err n) as [V|[x V]].
-  - left. unfold write_entry, lift. rewrite V.
-    assert (1 <= len_N (entry_run n e)) as H1 by (unfold entry_run; rewrite len_N_app; cbn [len_N length N.of_nat]; lia).
-    destruct (find_free_entries_spec ss (len_N (entry_run n e)) H1 Hb) as [p [pre [mid [post [Ef S]]]]].
-    rewrite Ef. destruct S as [S1 S2 _ _ _].
-    assert (N.to_nat p = length pre) as Ep by (rewrite <- S2; unfold len_N; apply Nat2N.id).
-    destruct (can_hold_dec k free (length ss - N.to_nat p) (length (entry_run n e))) as [C|C].
-    + rewrite Ep in *. subst ss.
-      assert (can_hold k free (length (mid ++ post)) (length (entry_run n e))) as C'.
-      { replace (length (mid ++ post)) with (length (pre ++ mid ++ post) - length pre)%nat by (rewrite app_length; lia). exact C. }
-      destruct (write_run_total k _ free pre (mid ++ post) C') as [ss' W]. rewrite W. cbn [bind]. eauto.
-    + exfalso. apply Hk. exists p. split; assumption.
-  - right. exists x. split; [exact V|]. apply failed_write_unchanged_partial. exact V.
+  intros Hb Hk. destruct (write_entry_cases k free ss n e Hb) as [H|[H|[[K [_ [E _]]]|H]]];
+    [left; exact H|right; left; exact H|right; right; split; assumption|].
+  destruct H as [cs [p [pre [mid [post [j [K [_ [_ [_ [C [F _]]]]]]]]]]]]. exfalso. apply Hk. exists cs, p. repeat split; assumption.
+Qed.
+
+(* what a call that does NOT succeed leaves behind, for every kind of directory: the decoding still has exactly the same
+   entries and labels (at most one orphan long-name run was added at the end: chain case 4 above), no slot that was in use
+   has changed, the directory did not shrink; a fixed root is byte-identical *)
+Theorem failed_write_keeps_entries k free fat32 ss n e es ls r ss' :
+  dir_scan ss 0 [] fat32 = (es, ls, []) -> len_N ss < 134217728 ->
+  write_entry k free ss n e = (r, ss') -> (forall range, r <> Ok range) ->
+  (exists x, r = Err x /\ x <> EWriteZero) /\
+  (k = FixedRoot -> ss' = ss) /\
+  (exists iss, dir_scan ss' 0 [] fat32 = (es, ls, iss) /\ (iss = [] \/ exists i, iss = [DOrphanLfn i])) /\
+  (length ss <= length ss')%nat /\
+  (forall i s, nth_error ss i = Some s -> ~ free_slot s -> nth_error ss' i = Some s).
+Proof.
+  intros H0 Hb H Hr.
+  assert (forall x, x <> EWriteZero -> r = Err x -> ss' = ss ->
+            (exists x, r = Err x /\ x <> EWriteZero) /\ (k = FixedRoot -> ss' = ss) /\
+            (exists iss, dir_scan ss' 0 [] fat32 = (es, ls, iss) /\ (iss = [] \/ exists i, iss = [DOrphanLfn i])) /\
+            (length ss <= length ss')%nat /\
+            (forall i s, nth_error ss i = Some s -> ~ free_slot s -> nth_error ss' i = Some s)) as Same.
+  { intros x Hx -> ->. split; [exists x; split; [reflexivity|exact Hx]|]. split; [reflexivity|].
+    split; [exists []; split; [exact H0|left; reflexivity]|]. split; [lia|]. intros i s Hi _. exact Hi. }
+  destruct (write_entry_cases k free ss n e Hb) as [[rg [s1 E]]|[[x [V E]]|[[K [V [E _]]]|C4]]].
+  - rewrite E in H. injection H as <- _. exfalso. apply (Hr rg). reflexivity.
+  - rewrite E in H. injection H as <- <-. apply (Same x); try reflexivity.
+    destruct (validate_err_kinds n x V) as [->| ->]; discriminate.
+  - rewrite E in H. injection H as <- <-. apply (Same ENotEnoughSpace); try reflexivity. discriminate.
+  - destruct C4 as [cs [p [pre [mid [post [j [K [V [S [J [_ [_ E]]]]]]]]]]]]. rewrite E in H. injection H as <- <-. subst k.
+    destruct S as [S1 S2 S3 S4 S5].
+    set (lf := map lfn_encode (write_entry_lfn_slots n (se_name e))) in *.
+    assert (entry_run n e = lf ++ [sfn_encode e]) as Erun by reflexivity.
+    destruct (entry_lfn_run_valid n (se_name e) V) as [_ [_ [_ [_ R5]]]]. fold lf in R5.
+    assert (length (entry_run n e) = S (length lf)) as ElenN by (rewrite Erun, app_length; cbn [length]; lia).
+    assert (firstn j (entry_run n e) = firstn j lf) as Efj.
+    { rewrite Erun, firstn_app. replace (j - length lf)%nat with 0%nat by lia. cbn [firstn]. apply app_nil_r. }
+    rewrite Efj.
+    (* the run did not fit: the free spot is the end of the used part *)
+    assert (post = [] \/ exists z r, post = z :: r /\ zfirst z) as Hpost.
+    { destruct S5 as [C|[_ C]]; [|exact C]. exfalso. rewrite app_length in J. unfold len_N in C. lia. }
+    (* the old decoding, split at the free spot *)
+    pose proof H0 as H0'. rewrite S1 in H0'. rewrite scan_app in H0' by exact S3.
+    destruct (scan_pre pre 0 [] fat32) as [[[es1 ls1] iss1] pd] eqn:Epre.
+    destruct (dir_scan (mid ++ post) (0 + len_N pre) pd fat32) as [[es2 ls2] iss2] eqn:E2.
+    injection H0' as Q1 Q2 Q3. apply app_eq_nil in Q3. destruct Q3 as [-> ->].
+    assert (pd = []) as ->.
+    { eapply no_issue_free_head; [exact E2|]. destruct mid as [|m0 mid'].
+      - cbn [app]. destruct Hpost as [->|[z [r [-> Hz]]]]; [left; reflexivity|right; exists z, r; split; [reflexivity|left; exact Hz]].
+      - right. exists m0, (mid' ++ post). split; [reflexivity|right]. inversion S4; assumption. }
+    rewrite scan_deleted in E2 by exact S4.
+    assert (Forall zfirst post /\ es2 = [] /\ ls2 = []) as [Hz [-> ->]].
+    { destruct Hpost as [->|[z [r [-> Hz]]]].
+      - cbn [dir_scan] in E2. inversion E2. repeat split; constructor.
+      - eapply no_issue_after_end; [exact Hz|exact E2]. }
+    rewrite !app_nil_r in *. subst es1 ls1.
+    split; [exists ENotEnoughSpace; split; [reflexivity|discriminate]|]. split; [discriminate|].
+    split; [|split].
+    + rewrite scan_app by exact S3. rewrite Epre.
+      rewrite <- (app_nil_r (firstn j lf)). rewrite scan_lfns by (apply lfn_live_like; apply LfnProofs.Forall_firstn'; exact R5).
+      cbn [dir_scan]. rewrite !app_nil_r. cbn [app]. eexists. split; [reflexivity|].
+      destruct (rev (firstn j lf)); [left; reflexivity|right; eexists; reflexivity].
+    + rewrite S1, !app_length, firstn_length. rewrite app_length in J. lia.
+    + intros i s Hi Hs. rewrite S1 in Hi.
+      destruct (Nat.lt_ge_cases i (length pre)) as [L|L].
+      * rewrite nth_error_app1 in Hi by exact L. rewrite nth_error_app1 by exact L. exact Hi.
+      * exfalso. apply Hs. rewrite nth_error_app2 in Hi by exact L. apply nth_error_In in Hi.
+        apply in_app_or in Hi. destruct Hi as [Hi|Hi].
+        -- right. rewrite Forall_forall in S4. apply S4. exact Hi.
+        -- left. rewrite Forall_forall in Hz. apply Hz. exact Hi.
 Qed.
 
 Definition ex_sfn (name : list N) : sfn_entry :=
@@ -1021,19 +1205,21 @@ Definition ex_alias : list N := [65; 65; 65; 65; 65; 65; 126; 49; 32; 32; 32].  
 
 (* (e) the unrestricted statement
      forall k free ss n e x ss', write_entry k free ss n e = (Err x, ss') -> ss' = ss
-   is FALSE for the code as it is (D5): a 14-character name needs 3 slots; an empty fixed root of 2 slots takes the two
-   long-name slots, then the short slot fails with WriteZero; the directory is left with an orphan run. *)
-Theorem failed_write_unchanged_refuted :
+   is still FALSE for a CHAIN-backed directory (finding "nospace during entry write"): a 14-character name needs 3 slots; a
+   directory whose only cluster has 2 free slots left takes the two long-name slots, then the chain cannot grow (no free
+   cluster): NotEnoughSpace, and the directory is left with an orphan run.  (For a fixed root it is now TRUE:
+   write_entry_fixed_root_full_unchanged.) *)
+Theorem failed_write_unchanged_chain_refuted :
   exists k free ss n e x ss',
     write_entry k free ss n e = (Err x, ss') /\ ss' <> ss /\
     len_N ss < 134217728 /\ sfn_live e /\ write_known_class k free ss n e /\
     dir_scan ss 0 [] false = ([], [], []) /\ dir_scan ss' 0 [] false = ([], [], [DOrphanLfn 2]).
 Proof.
-  exists FixedRoot, 0%nat, [zero_slot; zero_slot], (repeat_N 97 14), (ex_sfn ex_alias), EWriteZero.
+  exists (Chained 2), 0%nat, [zero_slot; zero_slot], (repeat_N 97 14), (ex_sfn ex_alias), ENotEnoughSpace.
   eexists. split; [vm_compute; reflexivity|]. split; [discriminate|]. split; [reflexivity|].
   split; [|split; [|split; reflexivity]].
   - constructor; [constructor; vm_compute; reflexivity| | |]; vm_compute; try reflexivity; discriminate.
-  - exists 0. split; [reflexivity|]. vm_compute. lia.
+  - exists 2%nat, 0. split; [reflexivity|]. split; [reflexivity|]. vm_compute. lia.
 Qed.
 
 (* ================================================================ 6. uniqueness of names in situ *)
@@ -1217,25 +1403,98 @@ Proof.
   unfold slots_wf. rewrite E2, H0. split; reflexivity.
 Qed.
 
-(* rename at the slot layer with the code's order: the slots of the decoded entry [e] are deleted first, then the
-   new entry is written (possibly into the slots just freed); on success the decoding loses exactly e and gains
-   exactly the new entry *)
-Theorem rename_slots_refines k free fat32 ss n se es ls e p q ss' :
+(* where a decoded entry sits: its long-name slots [lf] and its short slot [s]; all of them are in use *)
+Lemma decoded_entry_slots fat32 ss es ls iss e :
+  dir_scan ss 0 [] fat32 = (es, ls, iss) -> In e es ->
+  exists pre0 lf s post, ss = pre0 ++ lf ++ s :: post /\ Forall nonend pre0 /\ Forall lfn_like lf /\ short_live s /\
+    e_first_slot e = len_N pre0 /\ e_sfn_slot e = len_N pre0 + len_N lf.
+Proof.
+  intros H0 Hin.
+  destruct (scan_In_split fat32 ss 0 [] es ls iss e H0 Hin) as [pre0 [lf [s [post [E1 [E2 [E3 [E4 E5]]]]]]]].
+  exists pre0, lf, s, post. repeat (split; [assumption|]).
+  assert (e = mk_entry (rev lf) s (len_N pre0 + len_N lf) fat32) as Ee.
+  { destruct E5 as [[-> E5]|[_ [_ E5]]]; rewrite E5; [rewrite app_nil_r|]; f_equal. }
+  rewrite Ee. unfold mk_entry. cbn [e_first_slot e_sfn_slot]. unfold len_N. rewrite rev_length. split; lia.
+Qed.
+
+Lemma decoded_entry_in_use fat32 ss es ls iss e i :
+  dir_scan ss 0 [] fat32 = (es, ls, iss) -> In e es -> e_first_slot e <= N.of_nat i <= e_sfn_slot e ->
+  exists t, nth_error ss i = Some t /\ ~ free_slot t.
+Proof.
+  intros H0 Hin Hi.
+  destruct (decoded_entry_slots fat32 ss es ls iss e H0 Hin) as [pre0 [lf [s [post [E1 [_ [E3 [E4 [Ef Es]]]]]]]]].
+  rewrite Ef, Es in Hi. unfold len_N in Hi.
+  assert (Forall (fun t => ~ free_slot t) (lf ++ [s])) as Huse.
+  { apply Forall_app. split.
+    - eapply Forall_impl; [|exact E3]. intros t [_ [T1 T2]] [C|C]; contradiction.
+    - constructor; [|constructor]. destruct E4 as [T1 [T2 _]]. intros [C|C]; contradiction. }
+  replace (pre0 ++ lf ++ s :: post) with (pre0 ++ (lf ++ [s]) ++ post) in E1 by (rewrite <- !app_assoc; reflexivity).
+  assert (i - length pre0 < length (lf ++ [s]))%nat as Hlt by (rewrite app_length; cbn [length]; lia).
+  destruct (nth_error (lf ++ [s]) (i - length pre0)) as [t|] eqn:En; [|apply nth_error_None in En; lia].
+  exists t. split.
+  - rewrite E1. rewrite nth_error_app2 by lia. rewrite nth_error_app1 by exact Hlt. exact En.
+  - rewrite Forall_forall in Huse. apply Huse. eapply nth_error_In. exact En.
+Qed.
+
+Lemma app_mid_split {A} (u v : A) : forall l1 l2 x y, l1 ++ u :: l2 = x ++ v :: y -> u <> v ->
+  (exists m, x = l1 ++ u :: m /\ l2 = m ++ v :: y) \/ (exists m, l1 = x ++ v :: m /\ y = m ++ u :: l2).
+Proof.
+  induction l1 as [|h l1 IH]; intros l2 x y H Hne.
+  - destruct x as [|h' x]; cbn [app] in H.
+    + injection H as H1 H2. contradiction.
+    + injection H as H1 H2. left. exists x. subst. split; reflexivity.
+  - destruct x as [|h' x]; cbn [app] in H.
+    + injection H as H1 H2. right. exists l1. subst. split; reflexivity.
+    + injection H as H1 H2. destruct (IH _ _ _ H2 Hne) as [[m [E1 E2]]|[m [E1 E2]]]; [left|right]; exists m; subst; split; reflexivity.
+Qed.
+
+(* rename at the slot layer with the code's order (since d9f4de8): the new entry is written FIRST - into free slots, so it
+   never overlaps the slots of the decoded source entry [e], which are still in use at that time -, then the slots of [e]
+   are deleted in the directory as it is after the write; on success the decoding loses exactly e and gains exactly the
+   new entry *)
+Theorem rename_slots_refines k free fat32 ss n se es ls e p q ss1 :
   dir_scan ss 0 [] fat32 = (es, ls, []) -> len_N ss < 134217728 -> In e es -> sfn_live se ->
-  write_entry k free (mark_deleted ss (e_first_slot e) (e_sfn_slot e + 1)) n se = (Ok (p, q), ss') ->
+  write_entry k free ss n se = (Ok (p, q), ss1) ->
+  let ss' := mark_deleted ss1 (e_first_slot e) (e_sfn_slot e + 1) in
   exists a b c d ne,
     es = a ++ e :: b /\ a ++ b = c ++ d /\ dir_scan ss' 0 [] fat32 = (c ++ ne :: d, ls, []) /\
     e_lfn ne = (if is_dot_name n then [] else utf16_encode n) /\ e_lfn_ok ne = true /\ e_sfn ne = se_name se /\
     e_attr ne = se_attrs se /\ e_size ne = se_size se /\
     e_cluster ne = (if fat32 then se_first_cluster_hi se * 65536 else 0) + se_first_cluster_lo se /\
-    e_first_slot ne = p /\ e_sfn_slot ne + 1 = q.
+    e_first_slot ne = p /\ e_sfn_slot ne + 1 = q /\
+    (* the new entry lies entirely before or entirely behind the slots of the source *)
+    (q <= e_first_slot e \/ e_sfn_slot e < p) /\
+    (* frame: a slot outside both entries is untouched *)
+    (forall i, (i < length ss)%nat -> (N.of_nat i < p \/ q <= N.of_nat i) ->
+               (N.of_nat i < e_first_slot e \/ e_sfn_slot e < N.of_nat i) -> nth_error ss' i = nth_error ss i).
 Proof.
-  intros H0 Hb Hin Hl W.
-  destruct (mark_deleted_refines fat32 ss es ls e H0 Hin) as [a [b [E1 [E2 [E3 _]]]]]. cbn zeta in *.
-  assert (len_N (mark_deleted ss (e_first_slot e) (e_sfn_slot e + 1)) < 134217728) as Hb' by (unfold len_N in *; rewrite E3; exact Hb).
-  destruct (write_entry_refines k free fat32 _ n se _ ls p q ss' E2 Hb' Hl W)
-    as [c [d [ne [F1 [F2 [F3 [F4 [F5 [F6 [_ [_ [_ [_ [_ [_ [_ [F14 [F15 [F16 [F17 _]]]]]]]]]]]]]]]]]]]].
-  exists a, b, c, d, ne. repeat (split; [assumption|]). assumption.
+  intros H0 Hb Hin Hl W. cbn zeta.
+  destruct (write_entry_refines k free fat32 ss n se es ls p q ss1 H0 Hb Hl W)
+    as [es1 [es2 [ne [F1 [F2 [F3 [F4 [F5 [F6 [_ [_ [_ [_ [_ [_ [_ [F14 [F15 [F16 [F17 [F18 [Fr1 [Fr2 _]]]]]]]]]]]]]]]]]]]]]]].
+  (* the new entry and the source do not overlap *)
+  assert (q <= e_first_slot e \/ e_sfn_slot e < p) as Hdisj.
+  { destruct (N.le_gt_cases q (e_first_slot e)) as [L|L]; [left; exact L|].
+    destruct (N.lt_ge_cases (e_sfn_slot e) p) as [G|G]; [right; exact G|]. exfalso.
+    set (i := N.to_nat (N.max p (e_first_slot e))).
+    assert (N.of_nat i = N.max p (e_first_slot e)) as Ei by (unfold i; apply N2Nat.id).
+    destruct (entry_run_len n se) as [R1 _].
+    assert (e_first_slot e <= e_sfn_slot e) as Hfe.
+    { destruct (decoded_entry_slots fat32 ss es ls [] e H0 Hin) as [? [? [? [? [_ [_ [_ [_ [Q1 Q2]]]]]]]]]. rewrite Q1, Q2. lia. }
+    destruct (decoded_entry_in_use fat32 ss es ls [] e i H0 Hin) as [t [T1 T2]]; [rewrite Ei; lia|].
+    apply T2. apply (Fr2 i t); [rewrite Ei; lia|exact T1]. }
+  assert (e <> ne) as Hne.
+  { intros ->. destruct (entry_run_len n se) as [R1 _]. destruct Hdisj; lia. }
+  assert (In e (es1 ++ ne :: es2)) as Hin'.
+  { rewrite F1 in Hin. apply in_app_or in Hin. apply in_or_app. destruct Hin; [left|right; right]; assumption. }
+  destruct (mark_deleted_refines fat32 ss1 _ ls e F2 Hin') as [x [y [G1 [G2 [_ [G4 _]]]]]]. cbn zeta in G2, G4.
+  assert (ne <> e) as Hne' by congruence.
+  assert (exists a b c d, es = a ++ e :: b /\ a ++ b = c ++ d /\ x ++ y = c ++ ne :: d) as [a [b [c [d [A1 [A2 A3]]]]]].
+  { destruct (app_mid_split ne e es1 es2 x y G1 Hne') as [[m [-> ->]]|[m [-> ->]]].
+    - exists (es1 ++ m), y, es1, (m ++ y). rewrite F1, <- !app_assoc. repeat split.
+    - exists x, (m ++ es2), (x ++ m), es2. rewrite F1, <- !app_assoc. repeat split. }
+  exists a, b, c, d, ne. split; [exact A1|]. split; [exact A2|]. split; [rewrite G2, A3; reflexivity|].
+  do 8 (split; [assumption|]). split; [exact Hdisj|].
+  intros i Hi Hout1 Hout2. rewrite G4 by exact Hout2. apply Fr1; assumption.
 Qed.
 
 (* ---------- (g) the decoding as a finite map keyed by the raw short name ---------- *)
@@ -1299,11 +1558,13 @@ Proof.
   exists (a ++ b). split; [exact E2|]. intros key. rewrite E1 in *. apply dir_map_remove. exact ND.
 Qed.
 
-(* (g) rename in place = remove the old key, then add the new one (new key not among the remaining ones) *)
-Theorem rename_refines_map k free fat32 ss n se es ls e p q ss' :
+(* (g) rename in place (write the new entry, then delete the old one) = remove the old key and add the new one (new key
+   not among the REMAINING ones: it may be the key of the source itself) *)
+Theorem rename_refines_map k free fat32 ss n se es ls e p q ss1 :
   dir_scan ss 0 [] fat32 = (es, ls, []) -> len_N ss < 134217728 -> In e es -> NoDup (map e_sfn es) -> sfn_live se ->
   (forall x, In x es -> x <> e -> e_sfn x <> se_name se) ->
-  write_entry k free (mark_deleted ss (e_first_slot e) (e_sfn_slot e + 1)) n se = (Ok (p, q), ss') ->
+  write_entry k free ss n se = (Ok (p, q), ss1) ->
+  let ss' := mark_deleted ss1 (e_first_slot e) (e_sfn_slot e + 1) in
   exists es' ne, dir_scan ss' 0 [] fat32 = (es', ls, []) /\ e_sfn ne = se_name se /\
     e_lfn ne = (if is_dot_name n then [] else utf16_encode n) /\
     (forall key, dir_map es' key =
@@ -1311,9 +1572,9 @@ Theorem rename_refines_map k free fat32 ss n se es ls e p q ss' :
     e_lfn_ok ne = true /\ e_attr ne = se_attrs se /\ e_size ne = se_size se /\
     e_cluster ne = (if fat32 then se_first_cluster_hi se * 65536 else 0) + se_first_cluster_lo se.
 Proof.
-  intros H0 Hb Hin ND Hl Hnew W.
-  destruct (rename_slots_refines k free fat32 ss n se es ls e p q ss' H0 Hb Hin Hl W)
-    as [a [b [c [d [ne [E1 [E2 [E3 [E4 [E5 [E6 [E7 [E8 [E9 _]]]]]]]]]]]]]].
+  intros H0 Hb Hin ND Hl Hnew W. cbn zeta.
+  destruct (rename_slots_refines k free fat32 ss n se es ls e p q ss1 H0 Hb Hin Hl W)
+    as [a [b [c [d [ne [E1 [E2 [E3 [E4 [E5 [E6 [E7 [E8 [E9 _]]]]]]]]]]]]]]. cbn zeta in E3.
   exists (c ++ ne :: d), ne. split; [exact E3|]. split; [exact E6|]. split; [exact E4|].
   split; [|repeat split; assumption].
   intros key. rewrite E1 in *.
@@ -1508,8 +1769,8 @@ Proof.
   - intros [[_ H]|[C _]]; [exact H|discriminate].
 Qed.
 
-(* the tail of rename_internal (deletion loop over the slots of the listed source entry, then write_entry of the renamed
-   short entry) for a source entry [ev] that is the decoded entry [e] with short slot [se], and a short name [a] that no
+(* the tail of rename_internal (write_entry of the renamed short entry, then the deletion loop over the slots of the listed
+   source entry) for a source entry [ev] that is the decoded entry [e] with short slot [se], and a short name [a] that no
    OTHER entry of the directory carries ([a] may be the source's own short name) *)
 Lemma rename_rewrite_refines k free fat32 ss ev dst a es ls ss' e se :
   dir_scan ss 0 [] fat32 = (es, ls, []) -> len_N ss < 134217728 -> Forall bytes_ok ss -> NoDup (map e_sfn es) ->
@@ -1531,11 +1792,11 @@ Proof.
   assert (entry_data ss ev = se) as Ed.
   { unfold entry_data, DIR_ENTRY_SIZE. rewrite Hen. replace (e_sfn_slot e + 1 - 1) with (e_sfn_slot e) by lia.
     rewrite Hdec. reflexivity. }
-  assert (delete_entry ss ev = mark_deleted ss (e_first_slot e) (e_sfn_slot e + 1)) as Edel
-    by (unfold delete_entry, DIR_ENTRY_SIZE; rewrite Hbg, Hen; reflexivity).
-  rewrite Ed, Edel in H.
-  destruct (write_entry k free (mark_deleted ss (e_first_slot e) (e_sfn_slot e + 1)) dst (renamed se a)) as [w ss2] eqn:W.
-  destruct w as [[p q]| | |]; try discriminate. cbn [bind] in H. injection H as <-.
+  assert (forall s1, delete_entry s1 ev = mark_deleted s1 (e_first_slot e) (e_sfn_slot e + 1)) as Edel
+    by (intros s1; unfold delete_entry, DIR_ENTRY_SIZE; rewrite Hbg, Hen; reflexivity).
+  rewrite Ed in H.
+  destruct (write_entry k free ss dst (renamed se a)) as [w ss2] eqn:W.
+  destruct w as [[p q]| | |]; cbn [lift] in H; try discriminate. rewrite Edel in H. injection H as <-.
   assert (bytes_ok (nth (N.to_nat (e_sfn_slot e)) ss [])) as Hbs.
   { destruct (nth_in_or_default (N.to_nat (e_sfn_slot e)) ss []) as [I|D].
     - rewrite Forall_forall in Hby. apply Hby. exact I.
@@ -1544,7 +1805,7 @@ Proof.
   { constructor; [apply (decoded_fields_ok _ _ Hbs Hdec a L1)| | |]; unfold renamed; cbn [se_name se_attrs]; try assumption.
     unfold sfn_is_volume, ATTR_VOLUME_ID in Hvol. apply negb_false_iff in Hvol. apply N.eqb_eq in Hvol. exact Hvol. }
   destruct (rename_refines_map k free fat32 ss dst (renamed se a) es ls e p q ss2 H0 Hb Hin ND Hlive Hnew W)
-    as [es' [ne [G1 [G2 [G3 [G4 [G5 [G6 [G7 G8]]]]]]]]].
+    as [es' [ne [G1 [G2 [G3 [G4 [G5 [G6 [G7 G8]]]]]]]]]. cbn zeta in G1.
   cbn [renamed se_name se_attrs se_size se_first_cluster_hi se_first_cluster_lo] in *.
   exists ne, es'. split; [exact G1|]. split; [exact G3|]. split; [exact G5|]. split; [exact G2|].
   split; [rewrite G6; symmetry; exact Hat|]. split; [rewrite G7; symmetry; exact Hsz|].
@@ -1629,15 +1890,73 @@ Proof.
     exists a, ne, es'. split; [reflexivity|]. repeat (split; [assumption|]). exact G8.
 Qed.
 
-(* D20 at this layer: "a failed rename leaves the directory unchanged" is FALSE for the code as it is - the source slots
-   are deleted before the new entry is written; when that write fails (here: the fixed root is full, WriteZero after 5 of
-   6 slots) the source entry is gone and an orphan run is left *)
-Theorem rename_failed_unchanged_refuted :
-  exists ss src dst ss',
-    rename_in_dir upper_ascii oem_decode_lossy FixedRoot 0 ss src dst = (Err EWriteZero, ss') /\
-    map e_lfn (fst (fst (dir_scan ss 0 [] false))) = [ex_name1; [98]] /\ snd (dir_scan ss 0 [] false) = [] /\
-    map e_lfn (fst (fst (dir_scan ss' 0 [] false))) = [ex_name1] /\ snd (dir_scan ss' 0 [] false) = [DOrphanLfn 8].
-Proof. exists ex_dir2, [98], (repeat_N 99 53). eexists. split; [vm_compute; reflexivity|]. vm_compute. repeat split. Qed.
+(* D20 at this layer, FIXED by d9f4de8 (write first, delete afterwards): a rename within one directory that does not
+   succeed - whatever the reason: source not found, "." / "..", destination in use, rejected name, NotEnoughSpace of the
+   write - leaves the decoding with exactly the same entries and labels, in particular the source entry; no slot that was in
+   use has changed; a fixed root is byte-identical (a chain-backed directory that could not grow may have gained an orphan
+   long-name run at its end: finding "nospace during entry write") *)
+Theorem rename_failed_source_kept upper oem k free fat32 ss src dst es ls r ss' :
+  dir_scan ss 0 [] fat32 = (es, ls, []) -> len_N ss < 134217728 ->
+  rename_in_dir upper oem k free ss src dst = (r, ss') -> r <> Ok tt ->
+  (k = FixedRoot -> ss' = ss) /\
+  (exists iss, dir_scan ss' 0 [] fat32 = (es, ls, iss) /\ (iss = [] \/ exists i, iss = [DOrphanLfn i])) /\
+  (length ss <= length ss')%nat /\
+  (forall i s, nth_error ss i = Some s -> ~ free_slot s -> nth_error ss' i = Some s).
+Proof.
+  intros H0 Hb H Hr.
+  assert (ss' = ss ->
+          (k = FixedRoot -> ss' = ss) /\
+          (exists iss, dir_scan ss' 0 [] fat32 = (es, ls, iss) /\ (iss = [] \/ exists i, iss = [DOrphanLfn i])) /\
+          (length ss <= length ss')%nat /\
+          (forall i s, nth_error ss i = Some s -> ~ free_slot s -> nth_error ss' i = Some s)) as Same.
+  { intros ->. split; [reflexivity|]. split; [exists []; split; [exact H0|left; reflexivity]|]. split; [lia|]. intros i s Hi _. exact Hi. }
+  assert (forall e a, rename_rewrite k free ss e dst a = (r, ss') ->
+          (k = FixedRoot -> ss' = ss) /\
+          (exists iss, dir_scan ss' 0 [] fat32 = (es, ls, iss) /\ (iss = [] \/ exists i, iss = [DOrphanLfn i])) /\
+          (length ss <= length ss')%nat /\
+          (forall i s, nth_error ss i = Some s -> ~ free_slot s -> nth_error ss' i = Some s)) as Rew.
+  { intros e a HR. unfold rename_rewrite in HR.
+    destruct (write_entry k free ss dst (renamed (entry_data ss e) a)) as [w ss1] eqn:W.
+    assert (forall range, w <> Ok range) as Hw.
+    { intros rg ->. cbn [lift] in HR. injection HR as <- _. apply Hr. reflexivity. }
+    destruct (failed_write_keeps_entries k free fat32 ss dst _ es ls w ss1 H0 Hb W Hw) as [_ K].
+    destruct w as [rg| | |]; [exfalso; apply (Hw rg); reflexivity| | |]; cbn [lift] in HR; injection HR as _ <-; exact K. }
+  unfold rename_in_dir, lift in H.
+  destruct (find_entry upper oem ss src None) as [ev| | |]; try (injection H as _ <-; apply Same; reflexivity).
+  destruct (is_special ev); [injection H as _ <-; apply Same; reflexivity|].
+  destruct (check_for_existence upper oem ss dst None) as [[dv|a]| | |]; try (injection H as _ <-; apply Same; reflexivity).
+  - destruct (negb (Lfn.ev_end ev =? Lfn.ev_end dv)); [injection H as _ <-; apply Same; reflexivity|].
+    destruct (has_exact_name ev dst); [injection H as _ <-; apply Same; reflexivity|].
+    eapply Rew. exact H.
+  - eapply Rew. exact H.
+Qed.
+
+(* ... and a move into another directory that does not succeed leaves the SOURCE directory byte-identical, and the
+   destination directory as a failed write_entry leaves it *)
+Theorem rename_across_failed_source_unchanged upper oem kd freed fat32 src_ss dst_ss src dst es ls r src' dst' :
+  dir_scan dst_ss 0 [] fat32 = (es, ls, []) -> len_N dst_ss < 134217728 ->
+  rename_across upper oem kd freed src_ss dst_ss src dst = (r, (src', dst')) -> r <> Ok tt ->
+  src' = src_ss /\ (kd = FixedRoot -> dst' = dst_ss) /\
+  (exists iss, dir_scan dst' 0 [] fat32 = (es, ls, iss) /\ (iss = [] \/ exists i, iss = [DOrphanLfn i])) /\
+  (forall i s, nth_error dst_ss i = Some s -> ~ free_slot s -> nth_error dst' i = Some s).
+Proof.
+  intros H0 Hb H Hr.
+  assert (src' = src_ss -> dst' = dst_ss ->
+          src' = src_ss /\ (kd = FixedRoot -> dst' = dst_ss) /\
+          (exists iss, dir_scan dst' 0 [] fat32 = (es, ls, iss) /\ (iss = [] \/ exists i, iss = [DOrphanLfn i])) /\
+          (forall i s, nth_error dst_ss i = Some s -> ~ free_slot s -> nth_error dst' i = Some s)) as Same.
+  { intros -> ->. split; [reflexivity|]. split; [reflexivity|]. split; [exists []; split; [exact H0|left; reflexivity]|].
+    intros i s Hi _. exact Hi. }
+  unfold rename_across in H.
+  destruct (find_entry upper oem src_ss src None) as [ev| | |]; try (injection H as _ <- <-; apply Same; reflexivity).
+  destruct (is_special ev); [injection H as _ <- <-; apply Same; reflexivity|].
+  destruct (check_for_existence upper oem dst_ss dst None) as [[dv|a]| | |]; try (injection H as _ <- <-; apply Same; reflexivity).
+  destruct (write_entry kd freed dst_ss dst (renamed (entry_data src_ss ev) a)) as [w d1] eqn:W.
+  assert (forall range, w <> Ok range) as Hw.
+  { intros rg ->. injection H as <- _ _. apply Hr. reflexivity. }
+  destruct (failed_write_keeps_entries kd freed fat32 dst_ss dst _ es ls w d1 H0 Hb W Hw) as [_ [K1 [K2 [_ K4]]]].
+  destruct w as [rg| | |]; [exfalso; apply (Hw rg); reflexivity| | |]; injection H as _ <- <-; repeat split; assumption.
+Qed.
 
 (* the three finite-map statements as one theorem, and the two slot-clause statements as one (Props/ states them in full) *)
 Definition dir_refines_map := conj create_refines_map (conj remove_entry_refines rename_in_dir_refines).
